@@ -305,7 +305,26 @@ def rule_unmodifiable(ctx):
         run.info(R, key(m.relpath, fi.qualname, "every-channel-of-change"), "the constructor no longer merges custom_properties into "
                  "the property lookup: not judged")
     else:
-        okc = pr is not None and "custom_properties" in [c_ for c_ in pr.consts if isinstance(c_, str)]
+        # the NAMES given in custom_properties are put into the tested collection: syntactically, an expression that reads
+        # kwargs['custom_properties'] flows into it (its definition, an update() / |= on it).  (Provenance alone is not enough:
+        # once kwargs itself is written with something read from custom_properties, every use of kwargs carries the constant.)
+        def reads_custom(e):
+            return any((isinstance(x_, ast.Subscript) and norm(x_.value) == kwp and isinstance(x_.slice, ast.Constant) and x_.slice.value == "custom_properties")
+                       or (isinstance(x_, ast.Call) and isinstance(x_.func, ast.Attribute) and x_.func.attr == "get" and norm(x_.func.value) == kwp
+                           and x_.args and isinstance(x_.args[0], ast.Constant) and x_.args[0].value == "custom_properties") for x_ in ast.walk(e))
+        okc = False
+        if member is not None:
+            if reads_custom(member):
+                okc = True
+            mname = norm(member)
+            for n_ in body_walk(fi.node):
+                if isinstance(n_, ast.Assign) and norm(n_.targets[0]) == mname and reads_custom(n_.value):
+                    okc = True
+                if isinstance(n_, ast.AugAssign) and norm(n_.target) == mname and reads_custom(n_.value):
+                    okc = True
+                if isinstance(n_, ast.Call) and isinstance(n_.func, ast.Attribute) and n_.func.attr in ("update", "add", "union") \
+                        and norm(n_.func.value) == mname and any(reads_custom(a_) for a_ in n_.args):
+                    okc = True
         run.check(okc, R, key(m.relpath, fi.qualname, "every-channel-of-change"),
                   "the unmodifiable / identifier-contributing test looks at the keyword names only, but the constructor also takes "
                   "property values from the `custom_properties` argument (for spec-defined names too): "
